@@ -112,6 +112,9 @@ struct Exec {
             if (pend > 0) fault_hit_with_pending = true;
         }
         bool success = kind == OP_RECV ? rc > 0 : kind == OP_SEND ? (bs ? rc > 0 : rc == 0) : rc == 0;
+        // any send attempt (even one that fails half-way) and any flush of a pending frame may
+        // have put bytes on the wire towards a closed peer, which answers with a reset
+        if ((kind == OP_SEND || pend > 0) && (peer_gone || peer_fin)) t_sent_after_cut = true;
         bool closed_report = kind == OP_RECV && rc == 0;
         bool eagain = rc < 0 && e == EAGAIN;
         bool error_report = rc < 0 && e != EAGAIN;
@@ -133,6 +136,10 @@ struct Exec {
                 // the peer's close was discovered by a send (EPIPE); messages that
                 // had already arrived may still be handed over before receive says 0
                 return deliver(p2t, buf, rc, cap, "T");
+            }
+            if (kind == OP_RECV && rc == 0 && !recv_closed_seen) {
+                Outcome lo = close_lower_bound();
+                if (!lo.ok) return lo;
             }
             if (kind == OP_RECV && rc == 0) recv_closed_seen = true;
             VF_CHECK(!success, "C06: %s succeeded (rc %d) after the connection had reported %s", op_name(kind), rc,
@@ -163,12 +170,9 @@ struct Exec {
             VF_CHECK(allowed_first(closed_report, e, why),
                      "C06: %s on %s returned %d %s although %s", op_name(kind), tp_name(sc.tp), rc, rc < 0 ? errname(e) : "(peer closed)",
                      why.c_str());
-            if (closed_report && !peer_rst && !t_sent_after_cut) {
-                // orderly close: everything that arrived completely comes first
-                size_t k = complete_arrived();
-                size_t have = bs ? p2t.off : p2t.delivered;
-                VF_CHECK(have >= k, "C06: xcm_receive reported the peer's close although %zu complete %s had arrived and only %zu were delivered",
-                         k, bs ? "bytes" : "messages", have);
+            if (closed_report) {
+                Outcome lo = close_lower_bound();
+                if (!lo.ok) return lo;
             }
             if (closed_report) recv_closed_seen = true;
             term = closed_report ? CLOSED : BAD;
@@ -354,6 +358,20 @@ struct Exec {
         return Outcome::pass();
     }
 
+    // orderly close: everything that arrived completely comes before the 0.  Data T sent
+    // after the peer had *closed* may have provoked a reset (which destroys unread data);
+    // a half-closed peer (shutdown) still reads, so T's sends are harmless there.
+    Outcome close_lower_bound()
+    {
+        if (peer_rst || inj_errno) return Outcome::pass();
+        if (t_sent_after_cut && !(sc.cut_kind == 0 && peer_fin && !peer_gone)) return Outcome::pass();
+        size_t k = complete_arrived();
+        size_t have = bs ? p2t.off : p2t.delivered;
+        VF_CHECK(have >= k, "C06: xcm_receive reported the peer's close although %zu complete %s had arrived and only %zu were delivered",
+                 k, bs ? "bytes" : "messages", have);
+        return Outcome::pass();
+    }
+
     void cut()
     {
         if (P.closed) return;
@@ -397,6 +415,28 @@ struct Exec {
     // T->P data P has not read: the kernel answers a close with RST / ECONNRESET
     bool t2p_unread() { return bs ? t2p.off < t2p.bytes.size() : t2p.delivered < t2p.msgs.size(); }
 
+    Outcome bystander_check()
+    {
+        // the OpenSSL error queue is per thread: a TLS failure on the connection under test
+        // must not change what a healthy connection of the same thread reports
+        if (!tls || !by_a || by_a->closed) return Outcome::pass();
+        uint8_t tmp[128];
+        for (Ep *e : {by_a, by_b}) {
+            int rc = x_receive(*e, tmp, sizeof(tmp));
+            VF_CHECK(rc < 0 && errno == EAGAIN, "C06: a healthy TLS connection served by the same thread reports %d %s on receive after the other connection's failure", rc, rc < 0 ? errname(errno) : "");
+            rc = x_finish(*e);
+            VF_CHECK(rc == 0, "C06: a healthy TLS connection served by the same thread reports %s on finish after the other connection's failure", errname(errno));
+        }
+        // and it reports its own reset as such
+        sh_fail_io_at(by_a->tag, SH_RECV, 1, ECONNRESET);
+        int rc = x_receive(*by_a, tmp, sizeof(tmp));
+        VF_CHECK(rc < 0 && errno == ECONNRESET, "C06: a reset of a healthy TLS connection is reported as %d %s after another connection of the thread failed", rc, rc < 0 ? errname(errno) : "");
+        x_close(*by_a);
+        x_close(*by_b);
+        return Outcome::pass();
+    }
+    Ep *by_a = nullptr, *by_b = nullptr;
+
     Outcome run(const Fault &f, bool with_cut, uint64_t *nsend, uint64_t *nrecv)
     {
         sh_reset();
@@ -438,8 +478,19 @@ struct Exec {
                 o = tcall(TAIL[k], 7000 + k, TAIL[k] == OP_RECV ? 70000 : 10);
             }
         }
+        // the peer is dead (FIN or RST has reached T's kernel socket): xcm_receive has to say so
+        if (o.ok && with_cut && (peer_fin || peer_gone) && term == NONE && !T.closed) {
+            for (int k = 0; k < 60 && o.ok && term == NONE; k++) {
+                o = tcall(OP_RECV, 0, 70000);
+                if (term == NONE) usleep(3000);
+            }
+            if (o.ok && term == NONE)
+                o = failf("C06: the peer %s %zu ms ago, yet xcm_receive on %s keeps reporting EAGAIN instead of the close/failure",
+                          peer_rst ? "reset the connection" : "closed", (size_t)180, tp_name(sc.tp));
+        }
         if (nsend) *nsend = sh_cnt(T.tag)->send_calls;
         if (nrecv) *nrecv = sh_cnt(T.tag)->recv_calls;
+        if (o.ok && term != NONE) o = bystander_check();
         sh_send_budget(2, -1);
         sh_send_budget(3, -1);
         sh_fail_io_at(2, SH_SEND, 0, 0); sh_fail_io_at(2, SH_RECV, 0, 0);
@@ -668,7 +719,23 @@ public:
             sc.cut_at = std::max<size_t>(sc.cut_at, 1);
         }
         Exec ex(c, sc);
+        Ep ba, bb;
+        if (uses_tls(sc.tp) && cutsel % 2 == 0) {
+            PairOpts po;
+            po.tp = sc.tp == BTLS ? BTLS : TLS;
+            po.client_tag = 20;
+            po.server_conn_tag = 21;
+            std::string e2 = make_pair(po, ba, bb);
+            VF_CHECK(e2.empty(), "setup: bystander pair: %s", e2.c_str());
+            uint8_t tmp[64];
+            for (int i = 0; i < 20; i++) { x_receive(ba, tmp, sizeof(tmp)); x_receive(bb, tmp, sizeof(tmp)); }
+            ex.by_a = &ba;
+            ex.by_b = &bb;
+            c.cls("B:bystander-tls-connection");
+        }
         Outcome o = ex.run(Fault(), true, nullptr, nullptr);
+        x_close(ba);
+        x_close(bb);
         bool nt = false;
         if (ex.first_observer == OP_SEND) { c.cls("B:first-observer-send"); nt = true; }
         if (ex.first_observer == OP_FINISH) { c.cls("B:first-observer-finish"); nt = true; }
